@@ -164,6 +164,7 @@ def fold_sum(I, xs: SList, start):
     Empty-or-quantity, Empty-or-hourly.  Result by the contracts of __add__/__radd__: Empty iff every element is Empty."""
     from .contracts import explainable as X
     eng = I.eng
+    eng.run.cache["symbolic_loops"] = True
     n = xs.n
     name = f"sum({xs.name})"
     probe = xs.elem(z3.Int(f"{name}.j"))
